@@ -267,5 +267,17 @@ def replay(path):
 
 
 MUTATIONS = """
-(filled in after the mutation runs)
+Each mutation was applied to a scratch copy of the unfixed /repo (VERIF_REPO=...), `./check C20 --tier quick` was run
+and the mutant's own ctest result recorded (8 of 9 mutants pass all 201 golden tests):
+  INCLUDE_Processor counts a continued line as one physical line         -> VIOLATION   (ctest 201/201)
+  MACRO_GetPos prints LineZ instead of LineZ-1                           -> VIOLATION   (ctest 201/201)
+  REPT_GetPos does not step the iteration back at the body end            -> VIOLATION   (ctest 201/201)
+      (first run missed it: the faulty line never was the LAST body line; the families got the `post` dimension)
+  FindAndTakeExpectError does not unlink (EXPECT hides every occurrence)  -> VIOLATION   (ctest 160/201)
+  CodeENDEXPECT reports only the last leftover                            -> VIOLATION   (ctest 201/201)
+  -gnuerrors names the outermost instead of the innermost file            -> VIOLATION   (ctest 201/201)
+  INCLUDE_Restorer restores the line counter + 1                          -> VIOLATION   (ctest 201/201)
+  nested EXPECT accepted silently                                         -> VIOLATION   (ctest 201/201)
+The proposed fix of IRP_GetPos applied: 0 violations, no known finding hit (the as-coded prediction of the model
+equals the real output in all 576 affected runs before the fix, the declarative expectation after it).
 """
